@@ -1,6 +1,7 @@
 import Driver.Util
 import Hv.Misc.Name
 import Hv.Misc.XXHash
+import Hv.Misc.Routing
 
 /-! Line-protocol driver for the addressing model (domain C20).  Same ops and reply format as
     `/verif/harness/c20.go`.  The hash is the Lean xxhash64 (differential-tested by this very
@@ -75,12 +76,46 @@ def step (cfg : Cfg) (_ : Unit) (line : String) : Unit × String :=
     match field s, field r, field w, a.toNat?, b.toNat? with
     | some s, some r, some w, some n1, some n2 =>
       let h := islandHash ⟨s, r, w⟩
-      let two (f : Nat → Option Nat) : String :=
+      let two (f : Nat → Option Nat) (keyed : Bool) : String × Bool :=
         let x := f n1
-        let y := islandCached (x.getD 0) (f n2)
-        s!"{showOpt x},{showOpt y}"
-      ((), s!"sdk={two (sdkIsland cfg h)} srv={two (srvIsland cfg h)}")
+        let y := if keyed && n1 != n2 then f n2 else islandCached (x.getD 0) (f n2)
+        (s!"{showOpt x},{showOpt y}!{showOpt (f n2)}", y != f n2)
+      let (a, sa) := two (sdkIsland cfg h) cfg.cacheKeyedByN
+      let (b, sb) := two (srvIsland cfg h) cfg.cacheKeyedByN
+      ((), s!"sdk={a} srv={b}" ++ (if sa || sb then "\t#F:C20-island-cache-stale" else ""))
     | _, _, _, _, _ => ((), "bad-op")
+  | ["chain", s, r, w, nn, d, p] =>
+    match field s, field r, field w, nn.toNat?, d.toInt?, p.toInt? with
+    | some s, some r, some w, some N, some depth, some per =>
+      if N == 0 || N > 65535 || depth < 0 || depth > 1 then ((), "bad-op") else
+      let n : Name := ⟨s, r, w⟩
+      -- builders return new objects: nothing memoised on the way is inherited
+      ((), s!"sdk={showOpt (sdkIsland cfg (islandHash n) N)} path={pathOf cfg n 1 depth per} fresh=true")
+    | _, _, _, _, _, _ => ((), "bad-op")
+  | ["routes", nn, ranges] =>
+    match nn.toNat? with
+    | none => ((), "bad-op")
+    | some N =>
+      let parsed : Option (List Hv.Routing.Server) :=
+        if ranges == "-" then some []
+        else ((ranges.splitOn ",").zipIdx.mapM fun (r, j) =>
+          match r.splitOn "-" with
+          | [a, b] => match a.toNat?, b.toNat? with
+            | some x, some y => some (⟨x, y, j⟩ : Hv.Routing.Server)
+            | _, _ => none
+          | _ => none)
+      match parsed with
+      | none => ((), "bad-op")
+      | some servers =>
+        if N == 0 || N > 64 || servers.length > 6 then ((), "bad-op") else
+        let cells := ((List.range N).map (· + 1)).map fun i =>
+          match Hv.Routing.route servers i with
+          | some s => s!"{i}:{s.id}"
+          | none => s!"{i}:-"
+        let fl := match Hv.Routing.gapOrOverlap servers N with
+          | some _ => if cfg.validatesRanges then "" else "\t#F:C20-routing-unvalidated"
+          | none => ""
+        ((), ",".intercalate cells ++ fl)
   | ["load", p] =>
     match field p with
     | some p =>
@@ -106,7 +141,7 @@ def run (args : List String) : IO UInt32 := do
   let cfg : Cfg :=
     ⟨tri (arg kv "sdkPlusOne"), tri (arg kv "srvPlusOne"), natArg kv "srvBits", arg kv "hexVerb" == "no",
      natArg kv "cplMin", tri (arg kv "sliceClampsStart"), tri (arg kv "ctorsRejectSlash"),
-     natArg kv "defDepth", natArg kv "defPer"⟩
+     natArg kv "defDepth", natArg kv "defPer", tri (arg kv "routeValidatesRanges"), tri (arg kv "islandCacheKeyedByN")⟩
   lineLoop (step cfg) ()
   return 0
 
